@@ -132,9 +132,10 @@ def job_adapt(res, kind, L, n, lockmask, normal_eq=False):
                     cr, ci = Lz(wb[2 * (k * L + j)]), Lz(wb[2 * (k * L + j) + 1]); xr, xi = X[2 * (k - j)], X[2 * (k - j) + 1]
                     re = re + cr * xr - ci * xi; im = im + cr * xi + ci * xr
                 bad2 += [Lz(y[2 * k]) != re, Lz(y[2 * k + 1]) != im]
-        sol = z3.Solver(); sol.set('timeout', 120000); sol.add(*p.m.pc); sol.add(z3.Or(bad2)); t0 = time.time(); c = sol.check(); res.queries += 1; res.solver_s += time.time() - t0
+        sol = z3.Solver(); sol.set('timeout', 20000 if forked else 120000); sol.add(*p.m.pc); sol.add(z3.Or(bad2)); t0 = time.time(); c = sol.check(); res.queries += 1; res.solver_s += time.time() - t0
         if c == z3.unsat: res.ob(True, 'NRA', f'{label}: forall x, d, step sizes. y[k] == sum_j coeffs()[j] * x[k-j] with the coefficients read BEFORE sample k')
         elif c == z3.sat: cex(model_dict(sol), f'{label}: y[k] is not the output of the coefficient vector held before sample k', f'adapt:{KN[kind]}:apriori'); continue
+        elif forked: res.notes.append(f'{label}: a-priori output identity undecided on a data-dependent path (|pc|={len(p.m.pc)}); the path is replayed natively against the reference recursion below')
         else: res.inc(f'{label}: a-priori output identity undecided')
         # (3) locked samples leave coeffs() untouched (same terms)
         nxt = lambda k: wb[(k + 1) * L * w:(k + 2) * L * w] if k + 1 < n else wf
@@ -157,7 +158,7 @@ def job_adapt(res, kind, L, n, lockmask, normal_eq=False):
                         bad4 += [Lz(nw[2 * j]) != Lz(wb[2 * (k * L + j)]) * P2 + gr, Lz(nw[2 * j + 1]) != Lz(wb[2 * (k * L + j) + 1]) * P2 + gi]
                 desc4 = 'coeffs <- coeffs*leak + mu*e*conj(x)' + ('/(|u|^2+eps)' if kind == 4 else '')
                 if bad4:
-                    sol = z3.Solver(); sol.set('timeout', 90000); sol.add(*p.m.pc); sol.add(P1 > 0, P1 <= 1, P2 > 0); sol.add(z3.Or(bad4)); t0 = time.time(); c = sol.check(); res.queries += 1; res.solver_s += time.time() - t0
+                    sol = z3.Solver(); sol.set('timeout', 20000 if forked else 90000); sol.add(*p.m.pc); sol.add(P1 > 0, P1 <= 1, P2 > 0); sol.add(z3.Or(bad4)); t0 = time.time(); c = sol.check(); res.queries += 1; res.solver_s += time.time() - t0
                     if c == z3.unsat: res.ob(True, 'NRA', f'{label}: forall inputs and parameters: {desc4}')
                     elif c == z3.sat: cex(model_dict(sol), f'{label}: update rule violated ({desc4})', f'adapt:{KN[kind]}:update')
                     else:
@@ -195,7 +196,7 @@ def job_adapt(res, kind, L, n, lockmask, normal_eq=False):
                 bad4 = [z3.Sum([R[i][j] * W[j] for j in range(L)]) != pv[i] for i in range(L)]; desc4 = 'final coefficients solve (sum lam^(n-1-k) u u^T + lam^n/delta I) w = sum lam^(n-1-k) u d'
             else: bad4 = []
         if bad4:
-            sol = z3.Solver(); sol.set('timeout', 90000); sol.add(*p.m.pc); sol.add(P1 > 0, P1 <= 1, P2 > 0); sol.add(z3.Or(bad4)); t0 = time.time(); c = sol.check(); res.queries += 1; res.solver_s += time.time() - t0
+            sol = z3.Solver(); sol.set('timeout', 20000 if forked else 90000); sol.add(*p.m.pc); sol.add(P1 > 0, P1 <= 1, P2 > 0); sol.add(z3.Or(bad4)); t0 = time.time(); c = sol.check(); res.queries += 1; res.solver_s += time.time() - t0
             if c == z3.unsat: res.ob(True, 'NRA', f'{label}: forall inputs and parameters: {desc4}')
             elif c == z3.sat: cex(model_dict(sol), f'{label}: update rule violated ({desc4})', f'adapt:{KN[kind]}:update')
             else:
